@@ -96,6 +96,8 @@ type layoutEval struct {
 	alias  map[types.Object]lin // slice parameters of inlined helpers that stand for buf[base:]
 	depth  int
 	res    *layoutResult
+	// lastResults: the result expressions of the last return statement of the helper being run
+	lastResults []ast.Expr
 }
 
 // wrong records a definite violation (as opposed to a shape outside the fragment).
@@ -373,12 +375,86 @@ func (le *layoutEval) helper(call *ast.CallExpr) (ret lin, hasRet bool, handled 
 	return ret, hasRet, true
 }
 
+// helperTuple runs an extracted helper that returns several values (typically the freshly made
+// buffer and the offset behind a prefix it wrote) and hands back the result expressions of its
+// return statement, to be read in the helper's environment (which is shared with the caller's).
+func (le *layoutEval) helperTuple(call *ast.CallExpr) ([]ast.Expr, bool) {
+	hf := le.r.P.FuncInfoOf(le.r.P.CalleeFunc(le.info, call))
+	if !isNewHelper(le.r.P, hf) || le.depth >= 2 || hf.Pkg.TypesInfo != le.info {
+		return nil, false
+	}
+	k := 0
+	if hf.Decl.Type.Params != nil {
+		for _, fld := range hf.Decl.Type.Params.List {
+			for _, n := range fld.Names {
+				obj := le.info.Defs[n]
+				if k < len(call.Args) && obj != nil {
+					arg := call.Args[k]
+					if start, width, ok := le.bufRange(arg); ok && width == nil {
+						le.alias[obj] = start
+					} else if l, ok := le.linOf(arg); ok {
+						le.ints[obj] = l
+					} else {
+						le.params[obj] = le.name(arg)
+					}
+				}
+				k++
+			}
+		}
+	}
+	// named integer results start at zero
+	var named []ast.Expr
+	if hf.Decl.Type.Results != nil {
+		for _, fld := range hf.Decl.Type.Results.List {
+			for _, n := range fld.Names {
+				obj := le.info.Defs[n]
+				if obj == nil {
+					continue
+				}
+				named = append(named, n)
+				if b, ok := obj.Type().Underlying().(*types.Basic); ok && b.Info()&types.IsInteger != 0 {
+					le.ints[obj] = lin{}
+				}
+			}
+		}
+	}
+	le.depth++
+	le.lastResults = nil
+	le.block(hf.Decl.Body.List)
+	le.depth--
+	rets := le.lastResults
+	if len(rets) == 0 && len(named) > 0 {
+		rets = named // bare return of named results
+	}
+	return rets, len(rets) > 0
+}
+
 // block interprets a straight-line statement list; the linear form of a returned integer is
 // handed back (helpers).
 func (le *layoutEval) block(list []ast.Stmt) (ret lin, hasRet bool) {
 	for _, st := range list {
 		switch x := st.(type) {
 		case *ast.AssignStmt:
+			// buf, offset := helper(...): an extracted helper that allocates the buffer, writes a
+			// prefix and returns (buffer, next offset)
+			if len(x.Lhs) > 1 && len(x.Rhs) == 1 {
+				if call, ok := ast.Unparen(x.Rhs[0]).(*ast.CallExpr); ok {
+					if rets, ok := le.helperTuple(call); ok && len(rets) == len(x.Lhs) {
+						for i, l := range x.Lhs {
+							o := prog.IdentObjPlain(le.info, l)
+							if o == nil {
+								continue
+							}
+							if base, isBuf := le.bufBase(rets[i]); isBuf {
+								le.alias[o] = base
+							} else if v, isLin := le.linOf(rets[i]); isLin {
+								le.ints[o] = v
+							}
+						}
+						continue
+					}
+				}
+			}
 			if len(x.Lhs) == 1 && len(x.Rhs) == 1 {
 				lhs, rhs := x.Lhs[0], x.Rhs[0]
 				// buf := make([]byte, total)
@@ -471,6 +547,9 @@ func (le *layoutEval) block(list []ast.Stmt) (ret lin, hasRet bool) {
 				if l, ok := le.linOf(x.Results[0]); ok {
 					ret, hasRet = l, true
 				}
+			}
+			if le.depth > 0 {
+				le.lastResults = x.Results
 			}
 		case *ast.DeclStmt, *ast.EmptyStmt:
 		default:
